@@ -141,14 +141,32 @@ theorem tagColor_pure {cfg : Cfg} (hko : cfg.keyByObj = true) {s : State} (hinv 
   | plain => simp [tagColor] at h; subst h; rfl
   | pal cls i =>
     simp only [tagColor, bind, Except.bind] at h
-    cases ha : (if cls = pp.cls then Except.ok p else subAddr s p cls) with
-    | error e => simp [ha] at h
-    | ok a =>
-      simp only [ha, getPal] at h
+    have key : ∀ a, (if cls = pp.cls then Except.ok p else subAddr s p cls) = .ok a →
+        ∀ pa, getPal s a = .ok pa → nth pa.colors i = .ok col →
+        col = pureColor cfg c nc (.pal cls i) := by
+      intro a ha pa hpa h'
       obtain ⟨q, hq, hqc, hqn, hqk⟩ := sub cls a (Or.inl ha)
-      simp only [hq] at h
-      have := pal_color hinv hk hq hqn hqk (nth_some h) (by rw [hqc]; exact hst)
+      simp only [getPal, hq] at hpa
+      cases hpa
+      have := pal_color hinv hk hq hqn hqk (nth_some h') (by rw [hqc]; exact hst)
       rw [hqc] at this; exact this
+    by_cases hcp : cls = pp.cls
+    · simp only [hcp, if_true] at h key
+      cases hg : getPal s p with
+      | error e => simp [hg] at h
+      | ok pa =>
+        simp only [hg] at h
+        exact hcp ▸ key p rfl pa hg h
+    · simp only [hcp, if_false] at h key
+      cases ha : subAddr s p cls with
+      | error e => simp [ha] at h
+      | ok a =>
+        simp only [ha] at h
+        cases hg : getPal s a with
+        | error e => simp [hg] at h
+        | ok pa =>
+          simp only [hg] at h
+          exact key a ha pa hg h
   | enum e v cls i =>
     simp only [tagColor, bind, Except.bind] at h
     cases ha : subAddr s p cls with
@@ -226,7 +244,9 @@ theorem colorLines_pure {cfg : Cfg} (hko : cfg.keyByObj = true) {s : State} (hin
           (fun hf => ⟨(hst hf).1, (hst hf).2 l (by simp)⟩) h1
         have e2 := ih lsout (fun hf => ⟨(hst hf).1, fun x hx => (hst hf).2 x (by simp [hx])⟩) h2
         simp only [paintLines, List.map_cons, paintLine] at e2 ⊢
-        rw [← e2, e1]
+        subst e1
+        rw [← e2]
+        cases l.kind <;> rfl
 
 /-- `render`: the invariant survives, and the output is the shape painted with the colours that
 the configuration (as it is after the rendering) gives — for every no-colour rendering, and for
@@ -281,5 +301,310 @@ theorem render_spec {cfg : Cfg} (hcfg : cfgOk cfg = true) (hko : cfg.keyByObj = 
         apply (hst hf).2
         simp only [Shape.tags, List.mem_flatMap, List.mem_map]
         exact ⟨l, hl, ch, hch, rfl⟩
+
+/-! ### releasing memory -/
+
+theorem contains_iff {l : List Nat} {x : Nat} : l.contains x = true ↔ x ∈ l := by simp
+
+theorem gc_inv {cfg : Cfg} {s : State} (hinv : Inv cfg s) (keepP : List Addr) (keepC : List ConfId) :
+    Inv cfg (gc cfg keepP keepC s) := by
+  unfold gc
+  split
+  · rename_i hok
+    simp only [gcOk, Bool.and_eq_true, List.all_eq_true, Bool.or_eq_true, Bool.not_eq_true'] at hok
+    obtain ⟨⟨⟨⟨⟨⟨_, _⟩, hnc⟩, hen⟩, hheap⟩, hsubs⟩, hconfs⟩ := hok
+    have heapLk : ∀ a, (List.lookup a (s.heap.filter fun e => keepP.contains e.1)) =
+        if keepP.contains a then s.heap.lookup a else none := fun a => lookup_filter_key (fun x => keepP.contains x) a s.heap
+    have confLk : ∀ k, (List.lookup k (s.confs.filter fun e => keepC.contains e.1)) =
+        if keepC.contains k then s.confs.lookup k else none := fun k => lookup_filter_key (fun x => keepC.contains x) k s.confs
+    have keepHeap : ∀ a p, keepP.contains a = true → s.heap.lookup a = some p →
+        List.lookup a (s.heap.filter fun e => keepP.contains e.1) = some p := by
+      intro a p h1 h2; rw [heapLk, h1]; exact h2
+    refine ⟨?_, ?_, ?_, ?_, ?_, ?_, ?_⟩
+    · intro k c h
+      simp only [] at h
+      rw [confLk] at h
+      split at h
+      · exact hinv.confs k c h
+      · cases h
+    · intro a p h
+      simp only [] at h ⊢
+      rw [heapLk] at h
+      split at h
+      · obtain ⟨ci, hci, hlen, hv, hn, hcol⟩ := hinv.pals a p h
+        refine ⟨ci, hci, hlen, hv, hn, ?_⟩
+        intro hc c hc2
+        rw [confLk] at hc2
+        split at hc2
+        · exact hcol hc c hc2
+        · cases hc2
+      · cases h
+    · intro a p h
+      simp only [] at h ⊢
+      rw [heapLk] at h
+      split at h
+      · rename_i hka
+        have hmem := lookup_mem h
+        have := hheap (a, p) hmem
+        simp only [hka, Bool.true_eq_false, false_or] at this
+        rw [confLk, this]
+        exact hinv.live a p h
+      · cases h
+    · intro k c cls a h hc
+      simp only [] at h ⊢
+      rw [confLk] at h
+      split at h
+      · rename_i hkk
+        obtain ⟨p, h1, h2⟩ := hinv.cache k c cls a h hc
+        have := hconfs (k, c) (lookup_mem h)
+        simp only [hkk, Bool.true_eq_false, false_or] at this
+        exact ⟨p, keepHeap a p (this (cls, a) (lookup_mem hc)) h1, h2⟩
+      · cases h
+    · intro cls a h
+      obtain ⟨p, h1, h2⟩ := hinv.nc cls a h
+      exact ⟨p, keepHeap a p (hnc (cls, a) (lookup_mem h)) h1, h2⟩
+    · intro pa c b h
+      simp only [] at h ⊢
+      rw [lookup_filter_key (fun (x : Addr × ClassId) => keepP.contains x.1) (pa, c) s.subs] at h
+      split at h
+      · rename_i hpa
+        obtain ⟨pp, pb, h1, h2, h3⟩ := hinv.subs pa c b h
+        have := hsubs ((pa, c), b) (lookup_mem h)
+        simp only [] at hpa
+        simp only [hpa, Bool.true_eq_false, false_or] at this
+        exact ⟨pp, pb, keepHeap pa pp hpa h1, keepHeap b pb this h2, h3⟩
+      · cases h
+    · intro hko e ec a v cols h1 h2
+      obtain ⟨p, h3, h4⟩ := hinv.enums hko e ec a v cols h1 h2
+      have hen' : ∀ (x : EnumId × EnumCache), x ∈ s.enums → ∀ (y : (Addr × Nat) × List Color), y ∈ x.2 →
+          keepP.contains y.1.1 = true := by
+        rcases hen with h0 | h0
+        · rw [hko] at h0; cases h0
+        · exact h0
+      exact ⟨p, keepHeap a p (hen' (e, ec) (lookup_mem h1) ((a, v), cols) (lookup_mem h2)) h3, h4⟩
+  · exact hinv
+
+/-! ### configurations and enum types -/
+
+theorem mkConf_ok {cfg : Cfg} (hcfg : cfgOk cfg = true) {nc : Bool} {items : SMap} {c : Conf}
+    (h : mkConf cfg nc items = .ok c) : ConfOk cfg c := by
+  unfold mkConf at h
+  split at h
+  · cases h
+  · rename_i hwf
+    simp only [] at h
+    split at h
+    · cases h
+    · split at h
+      · cases h
+      · cases h
+        simp only [Bool.not_eq_true'] at hwf
+        have hwf' : ∀ e ∈ items, e.2.wf = true := by simpa [List.all_eq_true] using hwf
+        refine ⟨?_, ?_, ?_, ?_⟩
+        · intro x hx
+          simp only []
+          cases hb : cfg.builtin.lookup x with
+          | none => simp [hb] at hx
+          | some d =>
+            exact addItems_has _ cfg.builtin x (key_of_lookup hb)
+        · simp only []
+          apply smapWf_addItems _ _ _ (cfgOk_builtin_wf hcfg)
+          apply smapWf_addItems _ _ _ hwf'
+          intro x d hl; simp [emptyConf] at hl
+        · intro hcl
+          simp only [] at hcl ⊢
+          exact allResolved_of_bool hcl
+        · intro cls hcls
+          have h1 := (addItems_fields ((emptyConf nc).addItems items) cfg.builtin).2.2.1
+          have h2 := (addItems_fields (emptyConf nc) items).2.2.1
+          simp only [] at hcls
+          rw [h1, h2] at hcls
+          simp [emptyConf] at hcls
+
+theorem newConf_inv {cfg : Cfg} (hcfg : cfgOk cfg = true) {k : ConfId} {nc : Bool} {items : SMap} {s s' : State}
+    (hinv : Inv cfg s) (h : newConf cfg k nc items s = .ok s') : Inv cfg s' := by
+  unfold newConf at h
+  simp only [bind, Except.bind] at h
+  split at h
+  · cases h
+  · rename_i hfresh
+    cases hm : mkConf cfg nc items with
+    | error e => simp [hm] at h
+    | ok c =>
+      simp only [hm] at h
+      cases h
+      have hnone : s.confs.lookup k = none := by
+        cases hl : s.confs.lookup k with
+        | none => rfl
+        | some c0 => simp [hl] at hfresh
+      have hold : ∀ k' c', k' ≠ k → List.lookup k' ((k, c) :: s.confs) = some c' → s.confs.lookup k' = some c' := by
+        intro k' c' hne hl; rw [lookup_cons_ne _ _ hne] at hl; exact hl
+      have hext : ∀ k' c', s.confs.lookup k' = some c' → List.lookup k' ((k, c) :: s.confs) = some c' := by
+        intro k' c' hl
+        have : k' ≠ k := by intro e; subst e; rw [hnone] at hl; cases hl
+        rw [lookup_cons_ne _ _ this]; exact hl
+      refine ⟨?_, ?_, ?_, ?_, hinv.nc, hinv.subs, hinv.enums⟩
+      · intro k' c' hl
+        simp only [] at hl
+        by_cases e : k' = k
+        · subst e; rw [lookup_cons_eq] at hl; cases hl; exact mkConf_ok hcfg hm
+        · exact hinv.confs k' c' (hold k' c' e hl)
+      · intro a p hp
+        obtain ⟨ci, hci, hlen, hv, hn, hcol⟩ := hinv.pals a p hp
+        refine ⟨ci, hci, hlen, hv, hn, ?_⟩
+        intro hc c' hc'
+        simp only [] at hc'
+        have hlive := hinv.live a p hp
+        have : p.conf ≠ k := by intro e; rw [e, hnone] at hlive; simp at hlive
+        exact hcol hc c' (hold _ _ this hc')
+      · intro a p hp
+        simp only []
+        have hlive := hinv.live a p hp
+        cases hl : s.confs.lookup p.conf with
+        | none => simp [hl] at hlive
+        | some c0 => simp [hext _ _ hl]
+      · intro k' c' cls a hl hc
+        simp only [] at hl
+        by_cases e : k' = k
+        · subst e; rw [lookup_cons_eq] at hl; cases hl
+          -- a new configuration has an empty palette cache
+          unfold mkConf at hm
+          split at hm
+          · cases hm
+          · simp only [] at hm
+            split at hm
+            · cases hm
+            · split at hm
+              · cases hm
+              · cases hm
+                simp only [] at hc
+                have h1 := (addItems_fields ((emptyConf nc).addItems items) cfg.builtin).2.2.2
+                have h2 := (addItems_fields (emptyConf nc) items).2.2.2
+                rcases h1 with h1 | h1
+                · rcases h2 with h2 | h2
+                  · rw [h1, h2] at hc; simp [emptyConf] at hc
+                  · rw [h1, h2] at hc; simp at hc
+                · rw [h1] at hc; simp at hc
+        · exact hinv.cache k' c' cls a (hold k' c' e hl) hc
+
+theorem dropConf_inv {cfg : Cfg} {s : State} (hinv : Inv cfg s) (k : ConfId) : Inv cfg (dropConf k s) :=
+  ⟨hinv.confs, hinv.pals, hinv.live, hinv.cache, hinv.nc, hinv.subs, hinv.enums⟩
+
+theorem syncGp_inv {cfg : Cfg} {s : State} (hinv : Inv cfg s) : Inv cfg (syncGp cfg s) := by
+  unfold syncGp
+  split
+  · exact ⟨hinv.confs, hinv.pals, hinv.live, hinv.cache, hinv.nc, hinv.subs, hinv.enums⟩
+  · exact hinv
+
+theorem setGlobal_inv {cfg : Cfg} {k : ConfId} {s s' : State} (hinv : Inv cfg s)
+    (h : setGlobal cfg k s = .ok s') : Inv cfg s' := by
+  unfold setGlobal at h
+  simp only [bind, Except.bind] at h
+  cases hg : getConf s k with
+  | error e => simp [hg] at h
+  | ok c =>
+    simp only [hg] at h
+    cases h
+    apply syncGp_inv
+    exact ⟨hinv.confs, hinv.pals, hinv.live, hinv.cache, hinv.nc, hinv.subs, hinv.enums⟩
+
+theorem newEnum_inv {cfg : Cfg} {e : EnumId} {s s' : State} (hinv : Inv cfg s) (h : newEnum e s = .ok s') :
+    Inv cfg s' := by
+  unfold newEnum at h
+  split at h
+  · cases h
+  · cases h
+    refine ⟨hinv.confs, hinv.pals, hinv.live, hinv.cache, hinv.nc, hinv.subs, ?_⟩
+    intro hko e' ec a v cols h1 h2
+    simp only [] at h1
+    by_cases he : e' = e
+    · subst he; rw [lookup_cons_eq] at h1; cases h1; simp at h2
+    · rw [lookup_cons_ne _ _ he] at h1; exact hinv.enums hko e' ec a v cols h1 h2
+
+theorem dropEnum_inv {cfg : Cfg} {s : State} (hinv : Inv cfg s) (e : EnumId) : Inv cfg (dropEnum e s) := by
+  refine ⟨hinv.confs, hinv.pals, hinv.live, hinv.cache, hinv.nc, hinv.subs, ?_⟩
+  intro hko e' ec a v cols h1 h2
+  simp only [dropEnum] at h1
+  rw [lookup_filter_key (fun x => x ≠ e)] at h1
+  split at h1
+  · exact hinv.enums hko e' ec a v cols h1 h2
+  · cases h1
+
+/-! ### histories -/
+
+theorem step_inv {cfg : Cfg} (hcfg : cfgOk cfg = true) (hko : cfg.keyByObj = true) {alloc : Alloc}
+    (hal : ValidAlloc alloc) {s : State} (hinv : Inv cfg s) (op : Op) : Inv cfg (step cfg alloc s op) := by
+  cases op with
+  | newConf k nc items =>
+    simp only [step]
+    split
+    · rename_i s' h; exact newConf_inv hcfg hinv h
+    · exact hinv
+  | dropConf k => exact dropConf_inv hinv k
+  | gc kp kc => exact gc_inv hinv kp kc
+  | setGlobal k =>
+    simp only [step]
+    split
+    · rename_i s' h; exact setGlobal_inv hinv h
+    · exact hinv
+  | newEnum e =>
+    simp only [step]
+    split
+    · rename_i s' h; exact newEnum_inv hinv h
+    · exact hinv
+  | dropEnum e => exact dropEnum_inv hinv e
+  | render k nc sh =>
+    simp only [step]
+    split
+    · rename_i s' out h; exact (render_spec hcfg hko hal hinv h).1
+    · exact hinv
+
+theorem run_inv {cfg : Cfg} (hcfg : cfgOk cfg = true) (hko : cfg.keyByObj = true) {alloc : Alloc}
+    (hal : ValidAlloc alloc) : ∀ (ops : List Op) (s : State), Inv cfg s → Inv cfg (run cfg alloc s ops) := by
+  intro ops
+  induction ops with
+  | nil => intro s h; exact h
+  | cons op ops ih => intro s h; exact ih _ (step_inv hcfg hko hal h op)
+
+theorem emptyState_inv (cfg : Cfg) : Inv cfg emptyState := by
+  refine ⟨?_, ?_, ?_, ?_, ?_, ?_, ?_⟩ <;> intros <;> simp_all [emptyState]
+
+theorem initState_inv {cfg : Cfg} (hcfg : cfgOk cfg = true) : Inv cfg (initState cfg) := by
+  unfold initState
+  split
+  · rename_i c hm
+    apply syncGp_inv
+    have hc := mkConf_ok hcfg hm
+    refine ⟨?_, ?_, ?_, ?_, ?_, ?_, ?_⟩
+    · intro k c' h
+      simp only [emptyState] at h
+      by_cases e : k = 0
+      · subst e; rw [lookup_cons_eq] at h; cases h; exact hc
+      · rw [lookup_cons_ne _ _ e] at h; simp at h
+    all_goals (intros; simp_all [emptyState])
+    -- the palette cache of the fresh configuration is empty
+    rename_i k c' cls a h1 h2
+    by_cases e : k = 0
+    · subst e
+      rw [lookup_cons_eq] at h1; cases h1
+      unfold mkConf at hm
+      split at hm
+      · cases hm
+      · simp only [] at hm
+        split at hm
+        · cases hm
+        · split at hm
+          · cases hm
+          · cases hm
+            simp only [] at h2
+            have h3 := (addItems_fields ((emptyConf false).addItems []) cfg.builtin).2.2.2
+            have h4 := (addItems_fields (emptyConf false) []).2.2.2
+            rcases h3 with h3 | h3
+            · rcases h4 with h4 | h4
+              · rw [h3, h4] at h2; simp [emptyConf] at h2
+              · rw [h3, h4] at h2; simp at h2
+            · rw [h3] at h2; simp at h2
+    · rw [lookup_cons_ne _ _ e] at h1; simp at h1
+  · exact emptyState_inv cfg
 
 end PaletteState
